@@ -99,6 +99,7 @@ def run(tier='quick'):
             if (m.stmt.table or '').lower() in TRACK_TABLES]
     c18.shape(chk, R1, maps)
     _keyvalue_agreement(chk, R2, maps)
+    _filter_agreement(chk, R2, maps)
     for table in ('Track', 'PerformanceData'):
         for side in ('write', 'read'):
             gm = generic_maps(maps, table, side)
@@ -423,3 +424,75 @@ def _role_pairing(prog, chk, R4, M, asnap, aupd, ver):
                                       inst, n, pn, sorted(want), pn))
     if checked == 0:
         chk.unknown(R4, 'v2 role pairing', 'no write::N / read::N pair with matching member / parameter names found')
+
+
+def _conjuncts(expr):
+    """Top-level AND conjuncts of a WHERE expression as normalised strings."""
+    if expr is None:
+        return []
+    toks = expr.toks
+    out, cur, depth = [], [], 0
+    for t in toks:
+        if t.is_op('('):
+            depth += 1
+        elif t.is_op(')'):
+            depth -= 1
+        if depth == 0 and t.is_kw('AND'):
+            out.append(cur)
+            cur = []
+        else:
+            cur.append(t)
+    if cur:
+        out.append(cur)
+    res = []
+    for c in out:
+        txt = ' '.join(str(x.val if x.kind == 'id' else x.raw).lower() for x in c)
+        res.append(txt)
+    return res
+
+
+def _filter_agreement(chk, R2, maps):
+    """Sibling queries: all SELECTs that read the same value column of a table must filter rows
+    by the same residual predicate (what remains of the WHERE clause once the `column = ?`
+    key / discriminator equalities are removed).  A reader that drops rows its sibling keeps
+    (or keeps rows it drops) makes getter and snapshot, or write and read-back, disagree for the
+    values the extra predicate excludes; a residual other than `value IS NOT NULL` excludes
+    stored values."""
+    groups = {}
+    for sm in maps:
+        st = sm.stmt
+        if st.kind != 'select' or st.select is None or len(st.select.tables) != 1:
+            continue
+        t = (st.table or '').lower()
+        cols = [c for _, c, _ in sm.out if c]
+        for c in cols:
+            if c.lower() in ('id', 'type'):
+                continue
+            residual = []
+            for cj in _conjuncts(st.select.where):
+                if re.match(r'^[\w.]+ = \?$', cj):
+                    continue
+                residual.append(cj)
+            groups.setdefault((t, c.lower()), []).append((sm, tuple(sorted(residual))))
+    import collections
+    for (t, c), lst in sorted(groups.items()):
+        if t not in ('metadata', 'metadatainteger'):
+            # plain row tables: the residual must be empty or IS NOT NULL on a key
+            pass
+        cnt = collections.Counter(r for _, r in lst)
+        major = cnt.most_common(1)[0][0]
+        for sm, r in lst:
+            inst = '%s reads %s.%s with row filter %s' % (sm.func.qualname.replace('djinterop::engine::', ''), t, c, list(r) or 'none')
+            odd = [x for x in r if not re.match(r'^[\w.]+ is not null$', x)]
+            if r != major and len(lst) > 1:
+                chk.violation(R2, '%s|%s.%s|filter differs from sibling readers' % (
+                    sm.func.qualname.replace('djinterop::engine::', ''), t, c), sm.loc,
+                    '%s, its sibling reader(s) use %s: for the rows only one of them sees, the two observers '
+                    '(single-field getter / snapshot) disagree' % (inst, list(major) or 'none'))
+            elif odd and t in ('metadata', 'metadatainteger'):
+                chk.violation(R2, '%s|%s.%s|filter excludes stored values' % (
+                    sm.func.qualname.replace('djinterop::engine::', ''), t, c), sm.loc,
+                    '%s: the predicate %s drops rows whose value the writers store (absent is encoded as NULL '
+                    'only): such a value reads back as absent' % (inst, odd))
+            else:
+                chk.ok(R2, inst, sm.loc)
